@@ -173,15 +173,6 @@ theorem BRel.varRel (hT : ∀ v, T ≤ v → Good v) : VarRel (BRel T Good) wher
 
 end inst
 
-theorem IxM.run_bind_ok {α β : Type} {m : IxM α} {f : α → IxM β} {c c' : IndexCtx} {b : β}
-    (h : (m >>= f).run c = .ok (b, c')) : ∃ a c1, m.run c = .ok (a, c1) ∧ (f a).run c1 = .ok (b, c') := by
-  simp only [StateT.run_bind] at h
-  simp only [Bind.bind, Except.bind] at h
-  split at h
-  · cases h
-  · rename_i v hv
-    exact ⟨v.1, v.2, hv, h⟩
-
 section foreachSec
 variable {T : Nat} {Good : Nat → Prop} (hT : ∀ v, T ≤ v → Good v)
 include hT
